@@ -235,6 +235,9 @@ def zoom(array, zoom, out=None, order=3, mode='constant', cval=0.0, prefilter=Tr
         out = np.empty(out.shape, array.dtype)
     _interpolate.zoom_shift(array, zoom, None, out, order, mode2int[mode], cval)
     if o_out is not None:
+        if np.issubdtype(o_out.dtype, np.integer):
+            # round to nearest instead of truncating 8.999999 to 8
+            np.rint(out, out=out)
         o_out[:] = out[:]
         out = o_out
     return out
